@@ -186,6 +186,37 @@ pub fn replay(a: &Args) -> i32 {
         }
         evaluations += 1;
     }
+    // large messages: too big to log byte by byte; the real encoder and decoder must still round
+    // trip them, and the encoded length must be what the specification's layout arithmetic gives
+    for k in 0..40u64 {
+        evaluations += 1;
+        let mut headers = HashMap::new();
+        let nh = [0usize, 1, 3, 600][(k % 4) as usize];
+        for i in 0..nh {
+            let vlen = [0usize, 10, 5_000, 20_000, 70_000][((k + i as u64) % 5) as usize];
+            headers.insert(format!("Key-{i}-{}", rand_str(&mut rng, 4)), "v".repeat(if nh == 600 { 40 } else { vlen }));
+        }
+        let body: Vec<u8> = (0..[0usize, 1000, 300_000, 2_000_000][(k % 4) as usize]).map(|i| (i * 7 + k as usize) as u8).collect();
+        let hmap: usize = 8 + headers.iter().map(|(k, v)| 16 + k.len() + v.len()).sum::<usize>();
+        if k % 2 == 0 {
+            let route = format!("/big/{}", rand_str(&mut rng, 30));
+            let b = enc_req(&cfg, &route, &headers, &body, true).unwrap();
+            let want = 8 + 4 + (8 + route.len() + hmap) + 4 + body.len();
+            match block(anemo::verif::direct::read_request(&cfg, &b[..])) {
+                Ok(r) if r.route() == route && r.headers() == &headers && r.body()[..] == body[..] && b.len() == want => {}
+                Ok(_) => mismatches.push(json!({"what": format!("large request ({} header bytes, {} body bytes) did not round trip exactly; encoded {} bytes, layout says {want}", hmap, body.len(), b.len())})),
+                Err(e) => mismatches.push(json!({"what": format!("large request ({} header bytes, {} body bytes) encoded by the real code was rejected by the real decoder: {e}", hmap, body.len())})),
+            }
+        } else {
+            let b = enc_resp(&cfg, 200, &headers, &body, true).unwrap();
+            let want = 8 + 4 + (2 + hmap) + 4 + body.len();
+            match block(anemo::verif::direct::read_response(&cfg, &b[..])) {
+                Ok(r) if r.headers() == &headers && r.body()[..] == body[..] && b.len() == want => {}
+                Ok(_) => mismatches.push(json!({"what": format!("large response did not round trip exactly; encoded {} bytes, layout says {want}", b.len())})),
+                Err(e) => mismatches.push(json!({"what": format!("large response ({} header bytes) encoded by the real code was rejected by the real decoder: {e}", hmap)})),
+            }
+        }
+    }
     let path = a.str("out", "/verif/work/wire.ndjson");
     crate::trace::write_ndjson(std::path::Path::new(&path), &lines).unwrap();
     print_summary(&json!({"evaluations": evaluations, "mismatches": mismatches, "trace": path, "random": n}));
